@@ -12,6 +12,9 @@ CLAIMS = {
  "C03": dict(level=MC, design="5-C03",
    text="MC_WordArith proves the generic, early-decision (x86-64 assembly) and Montgomery shapes equal for all operands at small (W,N); the raw 384/768-bit primitives are then driven directly through the C++ members and the x86-64 baseline and BMI2/ADX entry points, on asm, asm-with-baseline-dispatch, portable 64-bit and portable 32-bit builds, aliased or not, on TLC-generated boundary families; TLC validates every result and flag against integer arithmetic and the outputs are compared bit for bit across back ends.",
    note="AArch64 and ARMv6-M assembly are not executed (no assembler/emulator for ARMv6-M pre-UAL syntax, no AArch64 execution here): covered at the algorithm-shape level only and listed as configs_uncovered in the evidence."),
+ "C04": dict(level=MC, design="5-C04",
+   text="The tower is specified as three instances of a generic quotient ring K[t]/(t^D - C) (ExtField.tla: polynomial product + reduction, no Karatsuba), Frobenius as x^(q^k) via generator images (checked against plain exponentiation by TLC), cyclotomic membership and the easy-part map as relations. TLC enumerates component-shape families x operations x alias patterns x all Frobenius powers 0..13 x sparse shapes; the cases are replayed on the rebuilt library (asm, portable 64/32) and TLC validates every recorded call, plus random calls, against the definitions.",
+   note="Trusted: TLC, BigNat/Tower Java accelerators (each checked against its TLA+ definition by MC_BigNat/MC_Tower). No exhaustive toy-field instance of the coded formulas yet; coverage at 381 bits is by shape classes and random events."),
 }
 checks = []
 for p in props:
